@@ -380,3 +380,141 @@ Fixpoint ftids (f : bytes) (tid : Z) (toks : list (bytes * nat)) : list Z :=
 
 (* hash given as an association list, default worker 0 *)
 Definition hash_of (tbl : list (bytes * nat)) (t : bytes) : nat := aget 0 t tbl.
+
+(* ------------------------------------------------------------------ Append in two published steps,
+   provider snapshots (frac/active_token_list.go: Append = getTokenLIDs; createTIDs; fillFieldTIDs;
+   getTokenProvider = GetTIDsByField (under fieldsMu) THEN tidToVal (under tidMu)) *)
+
+(* tokens whose TIDs exist (tidToVal grown) but whose field lists are not filled yet *)
+Record cstate := { c_tl : tlist; c_pending : list (Z * list (bytes * nat)) }.
+
+Inductive wev :=
+| WCreate (arrival : list nat) (items : list (bytes * nat))   (* getTokenLIDs + createTIDs of one Append *)
+| WFill (k : nat).                                            (* fillFieldTIDs + fillSizes of the k-th pending Append *)
+
+Fixpoint remove_nth {A} (k : nat) (l : list A) : list A :=
+  match l with
+  | [] => []
+  | x :: r => match k with O => r | S k' => x :: remove_nth k' r end
+  end.
+
+Definition cstep (hash : bytes -> nat) (st : cstate) (e : wev) : cstate :=
+  match e with
+  | WCreate arrival items =>
+      let t := c_tl st in
+      let fresh k := filter (fun it => Nat.eqb (hash (fst it)) k && negb (memb (fst it) (tl_known t))) items in
+      let news := flat_map fresh arrival in
+      {| c_tl := {| tl_vals := tl_vals t ++ map value_of news; tl_fields := tl_fields t;
+                    tl_sizes := tl_sizes t; tl_known := tl_known t ++ map fst news |};
+         c_pending := c_pending st ++ [(Z.of_nat (length (tl_vals t)), news)] |}
+  | WFill k =>
+      match nth_error (c_pending st) k with
+      | None => st
+      | Some (tid, news) =>
+          let t := c_tl st in
+          {| c_tl := {| tl_vals := tl_vals t; tl_fields := fill_fields tid news (tl_fields t);
+                        tl_sizes := fill_sizes news (tl_sizes t); tl_known := tl_known t |};
+             c_pending := remove_nth k (c_pending st) |}
+      end
+  end.
+Definition crun (hash : bytes -> nat) (st : cstate) (evs : list wev) : cstate := fold_left (cstep hash) evs st.
+
+(* the provider built from a TID-list snapshot and a value snapshot: GetToken(i) = vals[tids[i-1]];
+   None = index out of range *)
+Definition snap_get (tids : list Z) (vals : list bytes) (i : Z) : option bytes :=
+  if (i <? 1)%Z then None
+  else match nth_error tids (Z.to_nat (i - 1)) with
+       | None => None
+       | Some id => if (id <? 0)%Z then None else nth_error vals (Z.to_nat id)
+       end.
+Definition snap_dict (tids : list Z) (vals : list bytes) : option (list bytes) :=
+  (fix go (l : list Z) : option (list bytes) :=
+     match l with
+     | [] => Some []
+     | id :: r => match (if (id <? 0)%Z then None else nth_error vals (Z.to_nat id)), go r with
+                  | Some v, Some vs => Some (v :: vs)
+                  | _, _ => None
+                  end
+     end) tids.
+
+(* a schedule of one search against concurrent appends *)
+Inductive rev := RW (e : wev) | RReadTids | RReadVals.
+
+(* FindPattern under a schedule: the two snapshot reads happen where the schedule says; result =
+   values of the TIDs found (None = GetToken out of range, or a read missing from the schedule) *)
+Definition race_find (parse : bytes -> option Z) (hash : bytes -> nat) (st0 : cstate) (sched : list rev)
+           (f : bytes) (q : query) : option (list bytes) :=
+  let '(st, tids, vals) :=
+    fold_left (fun acc e =>
+                 let '(st, tids, vals) := acc in
+                 match e with
+                 | RW w => (cstep hash st w, tids, vals)
+                 | RReadTids => (st, Some (aget [] f (tl_fields (c_tl st))), vals)
+                 | RReadVals => (st, tids, Some (tl_vals (c_tl st)))
+                 end) sched (st0, None, None) in
+  match tids, vals with
+  | Some tids, Some vals =>
+      match snap_dict tids vals with
+      | None => None
+      | Some dict =>
+          match search parse false 1 dict q with
+          | None => None
+          | Some found => Some (map (tok 1 dict) found)
+          end
+      end
+  | _, _ => None
+  end.
+
+(* ------------------------------------------------------------------ TableLoader (frac/token/table_loader.go)
+   The index file enters as the list of its block lengths (block 0 = info block; a section ends
+   with an empty block). load(): i = 1; skip headers up to and including the first empty one (the
+   token blocks); read blocks until an empty one: those are the token table. The loader's state is
+   its read cursor. Result: (first table block, block after the table's terminator = new cursor);
+   None = a header/block index beyond the file (logger.Panic). *)
+Fixpoint skip_section (fuel : nat) (lens : list N) (i : nat) : option nat :=
+  match fuel with
+  | O => None
+  | S f => match nth_error lens i with
+           | None => None
+           | Some l => if (l =? 0)%N then Some (S i) else skip_section f lens (S i)
+           end
+  end.
+
+Definition tl_load (lens : list N) (cursor : nat) : option (nat * nat) :=
+  let i := 1 in      (* l.i = 1: the cursor the loader was left with is overwritten *)
+  match skip_section (length lens) lens i with
+  | None => None
+  | Some start => match skip_section (length lens) lens start with
+                  | None => None
+                  | Some stop => Some (start, stop)
+                  end
+  end.
+
+(* the variant that remembers the table start but does not rewind the cursor on a later load *)
+Definition tl_load_norewind (lens : list N) (st : nat * nat) : option (nat * nat * (nat * nat)) :=
+  let '(cursor, table_start) := st in
+  match (if Nat.eqb table_start 0 then skip_section (length lens) lens 1 else Some cursor) with
+  | None => None
+  | Some start =>
+      let ts := if Nat.eqb table_start 0 then start else table_start in
+      match skip_section (length lens) lens start with
+      | None => None
+      | Some stop => Some (start, stop, (stop, ts))
+      end
+  end.
+
+(* Load() through the cache: a lookup reloads iff the table was evicted (or never loaded); the
+   loader's cursor after a load is where the load stopped *)
+Fixpoint tl_lookups (lens : list N) (cursor : nat) (cached : option (nat * nat)) (evict : list bool)
+  : list (option (nat * nat)) :=
+  match evict with
+  | [] => []
+  | ev :: r =>
+      match (if ev then None else cached) with
+      | Some t => Some t :: tl_lookups lens cursor (Some t) r
+      | None => match tl_load lens cursor with
+                | None => None :: tl_lookups lens cursor None r
+                | Some (start, stop) => Some (start, stop) :: tl_lookups lens stop (Some (start, stop)) r
+                end
+      end
+  end.
